@@ -214,6 +214,7 @@ theorem apply0_terminal (w : World) (l : Label) (x : EId) (b : BId) (k : HId) (h
   case wiCancel => simpa [apply0] using h
   case expectTimeout x' => simp only [apply0]; split <;> simpa using h
   case expectCancelReq x' => simp only [apply0]; split <;> simpa using h
+  case hSkip p_ b_ e_ k_ => simp only [apply0]; split <;> simpa using h
   case stopBegin => simpa [apply0] using h
   case stopNoop => simpa [apply0] using h
   case stopEnd x' => simp only [apply0]; split <;> (try split) <;> simpa using h
@@ -231,7 +232,7 @@ end Bubus
 namespace Bubus
 
 def writesAct : Label → Bool
-  | .peBegin .. | .hSched .. | .hFinish .. | .walWrite .. | .peEnd .. | .peAbort .. => true
+  | .peBegin .. | .hSched .. | .hFinish .. | .walWrite .. | .peEnd .. | .peAbort .. | .hSkip .. => true
   | _ => false
 
 theorem markComplete_act (w : World) (x : EId) : (markComplete w x).act = w.act := by
@@ -613,6 +614,59 @@ theorem nsinv_walWrite (w : World) (p : Proc) (b : BId) (e : EId) (ok : Bool) (h
       exact hq (hI.disj q p B A j hB hA hj hj')
 
 
+/-- passing over a handler whose result was made terminal meanwhile: the handler moves from the to-do part to the part that
+    is accounted for, by its terminal result -/
+theorem nsinv_hSkip (w : World) (p : Proc) (b : BId) (e : EId) (k : HId)
+    (hg : guard w (.hSkip p b e k) = true) (hI : NSInv w) : NSInv (apply0 w (.hSkip p b e k)) := by
+  have hgg := hg
+  simp [guard, checks, Checks.ok] at hgg
+  obtain ⟨hact, _, hhead, hterm, hlt⟩ := hgg
+  have hne' := apply0_ne_mono w (.hSkip p b e k)
+  have hev : (apply0 w (.hSkip p b e k)).ev = w.ev := by
+    simp only [apply0]; cases hA : w.act p <;> simp
+  have hinst : (apply0 w (.hSkip p b e k)).inst = w.inst := by
+    simp only [apply0]; cases hA : w.act p <;> simp
+  cases hA : w.act p with
+  | none => simp [actIs, hA] at hact
+  | some A =>
+    simp [actIs, hA] at hact
+    obtain ⟨hb, he⟩ := hact
+    simp [hA] at hhead
+    have hT : Terminal (w.ev A.ev) A.bus k := by
+      rw [he, hb]
+      cases hr : (w.ev e).getRes? b k with
+      | none => simp [hr] at hterm
+      | some r => simp [hr] at hterm; exact ⟨r, hr, hterm⟩
+    have hoth : ∀ q, q ≠ p → (apply0 w (.hSkip p b e k)).act q = w.act q := by
+      intro q hq; simp only [apply0, hA]; simp [hq]
+    refine nsinv_of w _ hg hI p (by rw [apply0_ni]; exact Nat.le_refl _) hoth ?_
+    intro A' hA'
+    have hsame : A' = { A with todo := A.todo.tail } := by
+      simp only [apply0, hA] at hA'; simp at hA'; exact hA'.symm
+    subst hsame
+    obtain ⟨n, h2, h1, h3⟩ := hI.acts p A hA
+    have hn : A.sel[n]? = some k := by
+      have := hhead; rw [h2, List.head?_drop] at this; exact this
+    -- the skipped handler's result exists, so its event exists
+    refine ⟨⟨n + 1, ?_, ?_, ?_⟩, ?_, ?_⟩
+    · show A.todo.tail = A.sel.drop (n + 1)
+      rw [h2, List.tail_drop]
+    · exact Or.inr (Nat.lt_of_lt_of_le (by rw [he]; exact hlt) hne')
+    · intro k' hk'
+      have hk'' : k' ∈ A.sel.take n ∨ k' = k := by
+        have : k' ∈ A.sel.take (n + 1) := hk'
+        rw [List.take_add_one, hn] at this
+        simpa using this
+      rcases hk'' with hk'' | hk''
+      · rcases h3 k' hk'' with ht | ⟨j, hj, hid⟩
+        · left; show Terminal ((apply0 w (.hSkip p b e k)).ev A.ev) A.bus k'; rw [hev]; exact ht
+        · right; exact ⟨j, hj, by rw [hinst]; exact hid⟩
+      · subst hk''
+        left; show Terminal ((apply0 w (.hSkip p b e k')).ev A.ev) A.bus k'; rw [hev]; exact hT
+    · intro j hj; rw [apply0_ni]; exact hI.run p A j hA hj
+    · intro q B j hq hB hj hj'
+      exact hq (hI.disj q p B A j hB hA hj hj')
+
 /-! ### every reachable state -/
 
 theorem nsinv_apply0 (w : World) (l : Label) (hg : guard w l = true) (hI : NSInv w) (hO : OnceInv w) : NSInv (apply0 w l) := by
@@ -625,6 +679,7 @@ theorem nsinv_apply0 (w : World) (l : Label) (hg : guard w l = true) (hI : NSInv
     case walWrite p b e ok => exact nsinv_walWrite w p b e ok hg hI
     case peEnd p b e => exact nsinv_peEnd w p b e hg hI
     case peAbort p b e => exact nsinv_peAbort w p b e hg hI
+    case hSkip p b e k => exact nsinv_hSkip w p b e k hg hI
 
 theorem nsinv_wake (w : World) (h : NSInv w) : NSInv (wake w) := by
   refine ⟨?_, ?_, ?_⟩
